@@ -158,9 +158,6 @@ theorem hexBytesGo_spec : ∀ (fuel n : Nat), 0 < fuel → n < 256 ^ fuel →
         simp only [hexValue, List.foldl_cons, List.foldl_nil]
         omega
 
-/-- chunk sizes the C can represent in an off_t without tripping the decoder's overflow guard -/
-def chunkSizeOk (n : Nat) : Prop := n < 2 ^ 62
-
 theorem chunkSizeOk_div {n : Nat} (h : chunkSizeOk n) : n / 16 ≤ ckSizeLimit := by
   unfold chunkSizeOk at h
   unfold ckSizeLimit
